@@ -161,7 +161,9 @@ func (p *simpleGraphPrinter) print(g graph.Graph, name string, needsIndent, isSu
 				return errors.New("dot: mismatched graph type")
 			}
 			p.buf.WriteByte('\n')
-			p.print(g, g.DOTID(), true, true)
+			if err := p.print(g, g.DOTID(), true, true); err != nil {
+				return err
+			}
 		}
 	}
 
@@ -185,7 +187,9 @@ func (p *simpleGraphPrinter) print(g graph.Graph, name string, needsIndent, isSu
 					havePrintedNodeHeader = true
 				}
 				p.newline()
-				p.print(g, graphID(g, n), false, true)
+				if err := p.print(g, graphID(g, n), false, true); err != nil {
+					return err
+				}
 			}
 			continue
 		}
@@ -238,7 +242,9 @@ func (p *simpleGraphPrinter) print(g graph.Graph, name string, needsIndent, isSu
 				if subIsDirected != isDirected {
 					return errors.New("dot: mismatched graph type")
 				}
-				p.print(g, graphID(g, n), false, true)
+				if err := p.print(g, graphID(g, n), false, true); err != nil {
+					return err
+				}
 			} else {
 				p.writeNode(n)
 			}
@@ -264,7 +270,9 @@ func (p *simpleGraphPrinter) print(g graph.Graph, name string, needsIndent, isSu
 				if subIsDirected != isDirected {
 					return errors.New("dot: mismatched graph type")
 				}
-				p.print(g, graphID(g, t), false, true)
+				if err := p.print(g, graphID(g, t), false, true); err != nil {
+					return err
+				}
 			} else {
 				p.writeNode(t)
 			}
@@ -460,7 +468,9 @@ func (p *multiGraphPrinter) print(g graph.Multigraph, name string, needsIndent, 
 				return errors.New("dot: mismatched graph type")
 			}
 			p.buf.WriteByte('\n')
-			p.print(g, g.DOTID(), true, true)
+			if err := p.print(g, g.DOTID(), true, true); err != nil {
+				return err
+			}
 		}
 	}
 
@@ -484,7 +494,9 @@ func (p *multiGraphPrinter) print(g graph.Multigraph, name string, needsIndent, 
 					havePrintedNodeHeader = true
 				}
 				p.newline()
-				p.print(g, graphID(g, n), false, true)
+				if err := p.print(g, graphID(g, n), false, true); err != nil {
+					return err
+				}
 			}
 			continue
 		}
@@ -544,7 +556,9 @@ func (p *multiGraphPrinter) print(g graph.Multigraph, name string, needsIndent, 
 					if subIsDirected != isDirected {
 						return errors.New("dot: mismatched graph type")
 					}
-					p.print(g, graphID(g, n), false, true)
+					if err := p.print(g, graphID(g, n), false, true); err != nil {
+						return err
+					}
 				} else {
 					p.writeNode(n)
 				}
@@ -570,7 +584,9 @@ func (p *multiGraphPrinter) print(g graph.Multigraph, name string, needsIndent, 
 					if subIsDirected != isDirected {
 						return errors.New("dot: mismatched graph type")
 					}
-					p.print(g, graphID(g, t), false, true)
+					if err := p.print(g, graphID(g, t), false, true); err != nil {
+						return err
+					}
 				} else {
 					p.writeNode(t)
 				}
